@@ -2803,6 +2803,59 @@ fn judge_e2(rewrite: bool, ctrl: &super::proggen::CaseResult, res: &super::progg
     }
 }
 
+// ------------------------------------------------------------------------------------------------
+// supplementary, fully enumerated sub-check: a second helper attribute on the same item/variant/field of the derives
+// using the legacy meta-style parser ("Only a single attribute is allowed" is what the code itself says; the property:
+// "duplicated where only one is allowed ... makes the derive fail with a diagnostic")
+
+/// (derive, base item with `@` where the attributes go, attribute forms documented for that position)
+const LEGACY_DUP: [(&str, &str, &[&str]); 19] = [
+    ("Deref", "struct S { @ a: Box<i32>, #[deref(ignore)] b: u8 }", &["#[deref]", "#[deref(forward)]"]),
+    ("Deref", "@ struct S(Box<i32>);", &["#[deref(forward)]"]),
+    ("DerefMut", "struct S { @ a: Box<i32>, #[deref_mut(ignore)] b: u8 }", &["#[deref_mut]", "#[deref_mut(forward)]"]),
+    ("Index", "struct S { @ a: Vec<i32>, #[index(ignore)] b: u8 }", &["#[index]"]),
+    ("IndexMut", "struct S { @ a: Vec<i32>, #[index_mut(ignore)] b: u8 }", &["#[index_mut]"]),
+    ("IntoIterator", "struct S { @ a: Vec<i32>, #[into_iterator(ignore)] b: u8 }", &["#[into_iterator]", "#[into_iterator(owned)]", "#[into_iterator(ref)]", "#[into_iterator(owned, ref, ref_mut)]"]),
+    ("IntoIterator", "@ struct S(Vec<i32>);", &["#[into_iterator(owned)]", "#[into_iterator(ref, ref_mut)]"]),
+    ("Error", "struct S { @ a: E1, b: u8 }", &["#[error(source)]", "#[error(not(source))]", "#[error(ignore)]", "#[error(not(backtrace))]"]),
+    ("Error", "enum E { V { @ a: E1, b: u8 }, W }", &["#[error(source)]", "#[error(not(source))]", "#[error(ignore)]"]),
+    ("Error", "enum E { @ V { source: E1 }, W }", &["#[error(ignore)]"]),
+    ("Error", "@ struct S { source: E1 }", &["#[error(ignore)]"]),
+    ("IsVariant", "enum E { @ A(i32), B }", &["#[is_variant(ignore)]"]),
+    ("Unwrap", "enum E { @ A(i32), B }", &["#[unwrap(ignore)]"]),
+    ("Unwrap", "@ enum E { A(i32), B }", &["#[unwrap(ref)]", "#[unwrap(owned, ref, ref_mut)]"]),
+    ("TryUnwrap", "enum E { @ A(i32), B }", &["#[try_unwrap(ignore)]"]),
+    ("TryUnwrap", "@ enum E { A(i32), B }", &["#[try_unwrap(ref_mut)]", "#[try_unwrap(owned, ref)]"]),
+    ("TryInto", "enum E { @ A(i32), B(u8) }", &["#[try_into]", "#[try_into(ignore)]"]),
+    ("TryInto", "@ enum E { A(i32), B(u8) }", &["#[try_into(ref)]", "#[try_into(owned, ref, ref_mut)]"]),
+    ("Mul", "@ struct S(i32);", &["#[mul(forward)]"]),
+];
+
+fn legacy_duplicates(rep: &mut Report) {
+    for (derive, tmpl, forms) in LEGACY_DUP {
+        for a1 in forms.iter() {
+            let base = tmpl.replace('@', a1);
+            for a2 in forms.iter() {
+                let variant = tmpl.replace('@', &format!("{a1} {a2}"));
+                rep.evidence.eval(1);
+                rep.evidence.label("kind:co:dup-legacy-attribute");
+                rep.evidence.nontrivial(&format!("{derive}|{variant}"));
+                match eval_e1(derive, false, &base, &variant, None) {
+                    Verdict::Pass(_) => {}
+                    Verdict::GeneratorReject(e) => rep.infra_errors.push(format!("legacy-duplicate table: base `{base}` for {derive} is not accepted: {e}")),
+                    Verdict::Bad { what, expected, observed, sig } => rep.violations.push(Violation {
+                        sig,
+                        summary: format!("{what} [{derive} / second helper attribute on the same item]: `{variant}`"),
+                        case: json!({"derive": derive, "base": base, "variant": variant, "rewrite": false, "predicted": Value::Null}),
+                        expected,
+                        observed,
+                    }),
+                }
+            }
+        }
+    }
+}
+
 pub fn run(ctx: &Ctx) -> Report {
     let mut rep = Report::new(RULE);
     rep.evidence.max_samples = 12;
@@ -2811,6 +2864,7 @@ pub fn run(ctx: &Ctx) -> Report {
         "token equality is taken after sorting the top-level items of the expansion (impl order is not behaviour)".into(),
         "a corruption rejected by an internal (non-deliberate) panic counts as rejected here; totality is C18's subject".into(),
     ];
+    legacy_duplicates(&mut rep);
     let cells = cells();
     let (per_cell, rounds) = ctx.tier.pick((100usize, 1u32), (500, 4));
     let e2_per_cell = ctx.tier.pick(2usize, 4);
